@@ -58,6 +58,11 @@ func (db *DB) Merge() error {
 	// 如果存在上次 merge 的残留目录, 将其删除
 	if _, err := os.Stat(mergePath); err == nil {
 		verifPoint("merge.rmold", 0)
+		// 先删除完成标识文件: 即使删除目录的过程被中断, 残留目录也不会被当作已完成的 merge 加载
+		if err := os.Remove(datafile.GetFileName(mergePath, 0, datafile.MergeFinishedFileSuffix)); err != nil && !os.IsNotExist(err) {
+			return err
+		}
+		verifPoint("merge.rmold2", 0)
 		if err := os.RemoveAll(mergePath); err != nil {
 			return err
 		}
